@@ -1053,10 +1053,9 @@ pub fn c19_check(ops: &[Op], l: &crate::hsys::Layout, nmaps: usize) -> (u64, Vec
         ops.iter().any(|o| matches!(o, Op::Batch(b) if b.ctrl != CtrlData::Unit || has_ctrl_data(&b.inner)))
     }
     let fixed = has_ctrl_data(ops);
-    for m in resmaps(nmaps).iter().skip(1) {
-        if fixed && !(m[0] == 0 && m[2] == 2) {
-            continue;
-        }
+    // with A and C pinned there are only 24 relabellings: all of them, in both tiers
+    let maps: Vec<Vec<u8>> = if fixed { resmaps(usize::MAX).into_iter().filter(|m| m[0] == 0 && m[2] == 2).collect() } else { resmaps(nmaps) };
+    for m in maps.iter().skip(1) {
         cmp(&format!("resources relabelled by {:?}", &m[..4]), "plan-depends-on-resource-identity", ops, m, &mut n, &mut vs);
     }
     (n, vs)
